@@ -923,6 +923,42 @@ struct Extractor
             ev.push_back(o.done());
             return;
         }
+        if (auto* sl = dyn_cast<StringLiteral>(s))
+        {
+            if ((sl->isAscii() || sl->isUTF8()) && sl->getLength() < 48
+                && !s->getBeginLoc().isMacroID())
+            {
+                JObj o;
+                o.str("e", "str");
+                o.str("s", sl->getString());
+                o.str("loc", locStr(sl->getBeginLoc()));
+                Stmt const* cur = s;
+                for (int i = 0; i < 6 && cur; ++i)
+                {
+                    auto ps = ctx.getParents(*cur);
+                    if (ps.empty())
+                        break;
+                    Stmt const* p = ps[0].get<Stmt>();
+                    if (!p)
+                        break;
+                    if (auto* pe = dyn_cast<Expr>(p))
+                    {
+                        if (auto* fd = calleeOf(pe))
+                        {
+                            o.str("ctx", patName(fd));
+                            if (auto* md = dyn_cast<CXXMethodDecl>(fd))
+                                o.boolean("constm", md->isConst());
+                            break;
+                        }
+                    }
+                    if (isa<InitListExpr>(p) || isa<CXXStdInitializerListExpr>(p))
+                        o.boolean("inlist", true);
+                    cur = p;
+                }
+                ev.push_back(o.done());
+            }
+            return;
+        }
         if (auto* ne = dyn_cast<CXXNewExpr>(s))
         {
             if (ne->getNumPlacementArgs() >= 1)
